@@ -1,3 +1,5 @@
 pub mod builder;
 pub mod builder2;
 pub mod c08;
+pub mod c13;
+pub mod c16;
